@@ -578,6 +578,7 @@ fn parse_element<'input>(s: &mut Stream<'input>, events: &mut impl XmlEvents<'in
     events.token(Token::ElementStart(prefix, local, start))?;
 
     let mut open = false;
+    let mut closed = false;
     while !s.at_end() {
         let has_space = s.starts_with_space();
         s.skip_spaces();
@@ -588,6 +589,7 @@ fn parse_element<'input>(s: &mut Stream<'input>, events: &mut impl XmlEvents<'in
                 s.consume_byte(b'>')?;
                 let range = s.range_from(start);
                 events.token(Token::ElementEnd(ElementEnd::Empty, range))?;
+                closed = true;
                 break;
             }
             b'>' => {
@@ -623,6 +625,11 @@ fn parse_element<'input>(s: &mut Stream<'input>, events: &mut impl XmlEvents<'in
                 events.token(Token::Attribute(start..end, qname_len, eq_len, prefix, local, value))?;
             }
         }
+    }
+
+    // The stream has ended inside a start tag.
+    if !open && !closed {
+        return Err(Error::UnexpectedEndOfStream);
     }
 
     Ok(open)
